@@ -134,6 +134,49 @@ def execute_cases(ctx):
     return stats
 
 
+def real_mode_check(ctx):
+    """execute() with a REAL optimizer on three tasks designated process / thread / serial: where the objective evaluations really ran (pids, thread ids logged by the
+    objective itself) must match the designated mode - not merely the mode string the optimizer was handed"""
+    import glob
+    import pyvolutionary
+    from pyvolutionary.multitask import Multitask
+    from .. import search
+    from ..harness import quiet
+    from ..optimizers import registry, load
+    n = 0
+    for nm in ("GreyWolfOptimization", "ParticleSwarmOptimization")[: (1 if ctx.quick else 2)]:
+        entry = next(e for e in registry() if e["name"] == nm)
+        cls, cfg = load(entry, max_cycles=2, population_size=12, fitness_error=None)
+        base = tempfile.mktemp(prefix="pv-c20w-", dir="/var/tmp")
+        modes = ("process", "thread", "serial")
+        tasks = []
+        for k, (tc, mode) in enumerate(zip((search.SpecTask, search.SpecTaskB, search.SpecTaskC), modes)):
+            tasks.append(tc(variables=search.build_vars([("contmulti", ([-5.0] * 3, [5.0] * 3))]), data={"obj": "sphere", "record_where": f"{base}-{mode}", "delay": 0.002}, seed=3))
+        try:
+            mt = Multitask((cls(cfg),), tuple(tasks), modes=modes, n_workers=4)
+            with quiet(): mt.execute(n_trials=1, n_jobs=2)
+            seen = {}
+            for mode in modes:
+                pids, threads = set(), set()
+                for f in glob.glob(f"{base}-{mode}.*"):
+                    with open(f) as fh:
+                        for line in fh:
+                            p_, t_ = line.split(); pids.add(p_); threads.add((p_, t_))
+                seen[mode] = (len(pids), len(threads))
+            n += 1
+            meta = {"optimizer": nm, "modes": modes, "observed (pids, threads) per designated mode": seen}
+            if seen["process"][0] < 2:
+                ctx.violation("execute:process pair not run in processes", f"{nm}: the pair designated 'process' evaluated its objective in {seen['process'][0]} process(es) "
+                              f"({seen['process'][1]} threads): not a process pool", {"kind": "real-modes", **meta})
+            if seen["thread"][0] != 1 or seen["thread"][1] < 2:
+                ctx.violation("execute:thread pair not run in threads", f"{nm}: the pair designated 'thread' ran in {seen['thread'][0]} process(es) / {seen['thread'][1]} thread(s)", {"kind": "real-modes", **meta})
+            if seen["serial"] != (1, 1):
+                ctx.violation("execute:serial pair not serial", f"{nm}: the pair designated 'serial' ran in {seen['serial'][0]} process(es) / {seen['serial'][1]} thread(s)", {"kind": "real-modes", **meta})
+        finally:
+            for f in glob.glob(base + "-*"): os.unlink(f)
+    return n
+
+
 def run(ctx, info):
     ctx.trusted += ["hand model of the broadcast / validation / plan (Multi.v) tied by correspondence and by the exact-shape extraction of Multitask's methods (pv/thyper.py)",
                     "harness.TableOptimizer subclasses logging the mode each optimize() call received (marker files across worker processes)"]
@@ -142,6 +185,7 @@ def run(ctx, info):
     ctx.ties = {"gen_multitask_shape": st.get("gen_multitask_shape")}
     items, metas = ctor_cases(ctx)
     stats = execute_cases(ctx)
+    stats["real_mode_runs"] = real_mode_check(ctx)
     res = coq.run_cases("C20", PREAMBLE, items, "check", shard=400)
     ctx.add_cover(len(items) + stats["executes"], len({json.dumps(m, sort_keys=True) for m in metas}) + stats["executes"],
                   "constructor: all n, m in 1..3 x tuple lengths {none, 1, n, m, n*m, other} x mode values (incl. unknown ones, lists instead of tuples) vs the model and vs the "
